@@ -46,6 +46,11 @@ def fam_props(mm):
     m = copy.deepcopy(mm)
     m["structures"].append({"name": "ZzBase", "properties": [{"name": "baseProp", "type": STR}, {"name": "shared", "type": INT}]})
     m["structures"].append({"name": "ZzMix", "properties": [{"name": "mixProp", "type": BOOL, "optional": True}, {"name": "shared", "type": STR}]})
+    # two structures one of whose names is a PREFIX of the other, sharing a property name that is plain optional in the shorter-named and
+    # null-admitting (always written) in the longer-named: per-class tables keyed by "<Class>.<property>" strings must not be read by prefix
+    m["structures"].append({"name": "ZzFileFilter", "properties": [{"name": "scheme", "type": STR, "optional": True}, {"name": "pattern", "type": STR, "optional": True}]})
+    m["structures"].append({"name": "ZzFileFilterOptions", "properties": [{"name": "pattern", "type": {"kind": "or", "items": [STR, NULL]}},
+                                                                         {"name": "scheme", "type": {"kind": "or", "items": [STR, NULL]}, "optional": True}]})
     m["enumerations"].append({"name": "ZzKind", "type": STR, "values": [{"name": "alpha", "value": "alpha"}, {"name": "betaGamma", "value": "beta-gamma"}]})
     m["enumerations"].append({"name": "ZzNum", "type": UINT, "values": [{"name": "One", "value": 1}, {"name": "Two", "value": 2}], "proposed": True})
     m["structures"].append({"name": "ZzNew", "extends": [ref("ZzBase")], "mixins": [ref("ZzMix")], "properties": [
@@ -84,6 +89,9 @@ def fam_messages(mm, with_typename):
         req["typeName"], nt["typeName"], nop["typeName"] = "ZzDoThingRequest", "ZzDidThingNotification", "ZzPingRequest"
     m["requests"] += [req, nop]
     m["notifications"].append(nt)
+    if not with_typename:
+        # a method with an upper-case run (an acronym): the plugins camel-case method names with three different functions
+        m["requests"].append({"method": "zz/executeLSPCommand", "messageDirection": "clientToServer", "params": ref("ZzNew"), "result": NULL})
     if with_typename:
         # a typeName that contains "Request" / "Notification" BEFORE the suffix as well (GitHub-style "pull request"): the names of the
         # request / response / params classes derive from it by removing the SUFFIX only
